@@ -541,6 +541,7 @@ type job struct {
 	st    state
 	seq   []int // variant indexes
 	reorg bool  // deliver the (single) variant as a side-branch block that wins later
+	hf    bool  // every block by the client's headers-first route (chainx.Sess.HF)
 }
 
 var watchdog = 120 * time.Second
@@ -553,6 +554,7 @@ var twinLost = map[string]bool{}
 
 func runJob(p *chainx.Prefix, vs []variant, j job, states map[string]bool, mu *sync.Mutex, trans *int64, ruleHits map[string]*int64) (res *outcome) {
 	s := p.NewSession("c04")
+	s.HF = j.hf
 	defer s.Close()
 	var out *outcome
 	r := chainx.Guard(watchdog, func() {
@@ -726,6 +728,7 @@ func main() {
 				State string   `json:"state"`
 				Seq   []string `json:"variants"`
 				Reorg bool     `json:"reorg"`
+				HF    bool     `json:"headers_first"`
 			} `json:"replay"`
 		}
 		json.Unmarshal(b, &rec)
@@ -743,6 +746,7 @@ func main() {
 			}
 		}
 		j.reorg = rec.Replay.Reorg
+		j.hf = rec.Replay.HF
 		o := runJob(p, vs, j, stateSet, &mu, &trans, ruleHits)
 		if o == nil {
 			fmt.Fprintln(ev.Out, "replay: passes")
@@ -786,8 +790,13 @@ func main() {
 				for _, i := range j.seq {
 					names = append(names, vs[i].name)
 				}
+				if o != nil && j.hf {
+					// same block, same rule as by the other route: the key is not split (the listed findings
+					// are identified by the block); the route is in the details
+					o.what += " [headers-first route]"
+				}
 				if o != nil {
-					r.Report(o.key, o.what, map[string]interface{}{"state": j.st.name, "variants": names, "reorg": j.reorg, "trace": o.trace})
+					r.Report(o.key, o.what, map[string]interface{}{"state": j.st.name, "variants": names, "reorg": j.reorg, "headers_first": j.hf, "trace": o.trace})
 				} else {
 					samples.Add(map[string]interface{}{"state": j.st.name, "variants": names, "via_reorg": j.reorg})
 				}
@@ -808,6 +817,8 @@ func main() {
 		for i := range vs {
 			jobs <- job{st: st, seq: []int{i}}
 			jobs <- job{st: st, seq: []int{i}, reorg: true}
+			jobs <- job{st: st, seq: []int{i}, hf: true}
+			jobs <- job{st: st, seq: []int{i}, reorg: true, hf: true}
 			for k := range vs {
 				// quick: every invalid variant followed by every valid one, and every valid one followed by everything
 				if !r.Thorough() && vs[i].rule != "" && vs[k].rule != "" {
@@ -847,7 +858,7 @@ func main() {
 		"traces_validated_against_impl": int(hist),
 		"samples":                       samples.L,
 		"exhaustive":                    true,
-		"rule":                          fmt.Sprintf("chain states x all variants x all variant sequences to depth %d (quick omits invalid->invalid pairs); every delivery executed on the real chain from a copied prefix directory; verdict, tip and decoded UTXO map compared with refchain after each delivery", depth),
+		"rule":                          fmt.Sprintf("chain states x all variants x all variant sequences to depth %d (quick omits invalid->invalid pairs); every single variant, directly and via reorganisation, also by the client's headers-first route (announce, data, gate, CommitBlock); every delivery executed on the real chain from a copied prefix directory; verdict, tip and decoded UTXO map compared with refchain after each delivery", depth),
 	}, []string{
 		"reference model refchain (Core's connect rules incl. MoneyRange, BIP68, sigop cost) is the oracle",
 		"scripts are OP_1 / OP_0 / sigop-carrying output scripts, plus one 400-byte redeem / witness script (an unexecuted branch with 198 OP_16 OP_CHECKMULTISIG) behind P2SH, P2WSH and P2SH-P2WSH outputs for the sigop cost that is only reached when redeem and witness scripts are counted; real script semantics are C01's",
